@@ -675,6 +675,11 @@ class BIPForeign(BIPSAP, Client, Server, OneShotTask, DebugContents):
             self.bbmdAddress = Address(addr)
         self.bbmdTimeToLive = ttl
 
+        # registering again after unregister() starts over: leave the
+        # "unregistered" state, otherwise the BBMD's result is ignored
+        if self.registrationStatus == -2:
+            self.registrationStatus = -1
+
         # install this task to do registration renewal according to the TTL
         # and stop tracking any active registration timeouts
         self.install_task(when=0)
